@@ -312,11 +312,12 @@ func sysChild() {
 
 func genSys(g gen, o vh.Opts) []string {
 	var lines []string
-	nCorp := o.Pick(14, 120)
+	nCorp := o.Pick(60, 500)
 	svcs := []string{"a", "a", "b", "c"}
 	for c := 0; c < nCorp; c++ {
 		n := g.r.Range(1, o.Pick(24, 60))
 		maxMid := []int{6, 20, 200}[g.r.Intn(3)]
+		n = min(n, 3*maxMid-2) // at most 3*maxMid distinct IDs exist
 		seen := map[seq.ID]bool{}
 		var docs []string
 		for len(docs) < n {
